@@ -182,4 +182,41 @@ func (*Scanner).scanEscape [C13, C19, C03]
   ensures J(s) && P(s) && s.cur >= old(s.cur) && s.cur < len(s.src) && curRune(s) != 10 && s.start == old(s.start)
   ensures result ==> s.cur == old(s.cur) + 1
   ensures !result ==> s.cur == old(s.cur)
+
+func (*Scanner).string [C13, C19, C03]
+  safe
+  requires J(s) && P(s)
+  modifies scanner.Scanner.cur, scanner.Scanner.column, scanner.Scanner.line, scanner.Scanner.indent, scanner.Scanner.shouldIndent, scanner.Scanner.shouldCapitalize, parser.parser.errored
+  ensures J(s) && P(s) && s.cur >= old(s.cur) && s.start == old(s.start)
+  ensures result.Type == token.STRING || result.Type == token.ILLEGAL
+  // a text literal ends behind its closing quote; an unterminated one is ILLEGAL and consumes the rest of the input
+  ensures result.Type == token.STRING ==> s.cur > old(s.cur) && result.Literal == stringOf(subslice(s.src, s.start, s.cur))
+  ensures result.Type == token.ILLEGAL ==> s.cur == len(s.src)
+  ensures result.Range.Start.Line == s.startLine && result.Range.Start.Column == s.startColumn
+  ensures result.Range.End.Line == s.line && result.Range.End.Column == s.column
+  loop 0 invariant J(s) && P(s) && s.cur >= old(s.cur) && s.start == old(s.start) && s.startLine == old(s.startLine) && s.startColumn == old(s.startColumn)
+  loop 0 decreases len(s.src) - s.cur
+
+func (*Scanner).char [C13, C19, C03]
+  safe
+  requires J(s) && P(s)
+  modifies scanner.Scanner.cur, scanner.Scanner.column, scanner.Scanner.line, scanner.Scanner.indent, scanner.Scanner.shouldIndent, scanner.Scanner.shouldCapitalize, parser.parser.errored
+  ensures J(s) && P(s) && s.cur >= old(s.cur) && s.start == old(s.start)
+  ensures result.Type == token.CHAR || result.Type == token.ILLEGAL
+  ensures result.Type == token.CHAR ==> s.cur > old(s.cur) && result.Literal == stringOf(subslice(s.src, s.start, s.cur))
+  ensures result.Type == token.ILLEGAL ==> s.cur == len(s.src)
+  ensures result.Range.Start.Line == s.startLine && result.Range.Start.Column == s.startColumn
+  ensures result.Range.End.Line == s.line && result.Range.End.Column == s.column
+  loop 0 invariant J(s) && P(s) && s.cur >= old(s.cur) && s.start == old(s.start) && s.startLine == old(s.startLine) && s.startColumn == old(s.startColumn)
+  loop 0 decreases len(s.src) - s.cur
+
+func (*Scanner).aliasParameter [C13, C03]
+  safe
+  requires J(s) && P(s)
+  modifies scanner.Scanner.cur, scanner.Scanner.column, scanner.Scanner.shouldIndent, scanner.Scanner.shouldCapitalize, parser.parser.errored
+  ensures J(s) && s.cur >= old(s.cur) && s.start == old(s.start)
+  ensures result.Type == token.ALIAS_PARAMETER
+  ensures result.Literal == stringOf(subslice(s.src, s.start, s.cur))
+  loop 0 invariant J(s) && s.cur >= old(s.cur) && s.start == old(s.start)
+  loop 0 decreases len(s.src) - s.cur
 @*/
